@@ -13,6 +13,19 @@ import (
 func init() { register("C06", checkC06) }
 
 func checkC06(p *Program, r *Report) {
+	// round 6 (systematic): the Base58 / Base58Check layer this property's strings go through is C07's — its table,
+	// checksum, exactness and purity clauses are necessary here too (§2.11)
+	r.Borrow("C07", func(o *Ob) (string, bool) {
+		switch o.Rule {
+		case "C07.tables", "C07.checksum", "C07.exact", "C07.pure":
+			if strings.Contains(o.Func, "bech32") || strings.Contains(o.Construct, "bech32") {
+				return "", false
+			}
+			return "C06.base58", true
+		}
+		return "", false
+	})
+	r.Floor("C06.base58", 5)
 	sharedStateRule(p, r, NewEffects(p), "C06.shared", []string{"wif.go", "base58/base58.go", "base58/base58check.go"})
 	r.Floor("C06.shared", 4)
 	r.Explain = "C06.len: every accepting return of DecodeWIF knows 37 ≤ len(decoded) ≤ 38 (merge-point proof over the length classification, which also has " +
